@@ -546,11 +546,15 @@ func (g *gen) control(t typ, d int) (node, bool) {
 	case 7:
 		g.h("case")
 		syms := g.r.Chance(35) // keys are symbols (never evaluated), the key form yields a symbol
-		symNames := []string{"foo", "bar", "baz", "qux", "x", "if"}
+		// t and otherwise INSIDE a key list are ordinary keys (they match the objects t / otherwise only)
+		symNames := []string{"foo", "bar", "baz", "qux", "x", "if", "t", "otherwise"}
 		var k node
 		if syms {
 			pick := func() node {
 				nm := common.Pick(g.r, symNames)
+				if nm == "t" {
+					return node{"t", "(EConst DT)"}
+				}
 				return node{"'" + nm, "(EQuote (DSym " + q(nm) + "))"}
 			}
 			k = pick()
@@ -572,11 +576,16 @@ func (g *gen) control(t typ, d int) (node, bool) {
 			var ks, kg []string
 			for j := 0; j < nk; j++ {
 				z := g.r.Intn(6)
+				if syms {
+					z = g.r.Intn(len(symNames))
+				}
 				if used[z] {
 					continue
 				}
 				used[z] = true
-				if syms {
+				if syms && symNames[z] == "t" {
+					ks, kg = append(ks, "t"), append(kg, "DT")
+				} else if syms {
 					ks, kg = append(ks, symNames[z]), append(kg, "DSym "+q(symNames[z]))
 				} else {
 					ks, kg = append(ks, fmt.Sprint(z)), append(kg, fmt.Sprintf("DInt %d", z))
@@ -587,7 +596,7 @@ func (g *gen) control(t typ, d int) (node, bool) {
 			}
 			b := g.body(t, d, 1)
 			key := "(" + strings.Join(ks, " ") + ")"
-			if len(ks) == 1 && g.r.Bool() {
+			if len(ks) == 1 && ks[0] != "t" && ks[0] != "otherwise" && g.r.Bool() {
 				key = ks[0]
 			}
 			ls, gs = append(ls, lisp(key, joinL(b))), append(gs, fmt.Sprintf("(%s, %s)", common.GList(kg), listG(b)))
